@@ -552,7 +552,7 @@ func runC15(c *mon.Ctx) {
 		c.Note("this CPU has no ADX: the ADX path cannot be observed")
 	}
 	nLimb := c.Pick(800, 2401)
-	nRand := c.Pick(60, 120)
+	nRand := c.Pick(60, 600)
 	if noadxBuild {
 		nLimb, nRand = c.Pick(200, 500), 30
 	}
